@@ -3,6 +3,23 @@ import json, os
 V = os.path.dirname(os.path.dirname(os.path.abspath(__file__)))
 props = [json.loads(l)["id"] for l in open(os.path.join(V, "properties.jsonl"))]
 CHECKS = {
+ "C01": dict(
+   text="PARTIAL.  Proved (Props/C01.v; Scope/SpecProofs*.v): for the six brace languages, GIVEN that the matcher returns "
+        "exactly the headers of a well-formed family of function descriptors over the code tokens, the rest of the pipeline — "
+        "the stack-based brace matcher (= Dyck matching, `C01_blocks_are_dyck`), reverse-order pairing with block deletion "
+        "(`C01_pairing`: every header gets its own body whatever brace groups lie in its parameters, inside or around it), "
+        "the nesting fold and the distinct-line count — reports exactly one measurement per descriptor, in source order, with "
+        "its name, the span from the header's first token to just past the closing brace, and length = distinct lines of its "
+        "own tokens excluding nested functions; C (no nesting) likewise.  NOT proved: that on every program of the canonical "
+        "grammar the captured header patterns match exactly at the function headers, and the Python indentation family — both "
+        "are checked on 4 200 generated programs per quick run (all quantifier features: nesting in any position, multi-line "
+        "headers, both brace styles, brace groups and calls in parameters, async, strings with delimiters, comments, bodies "
+        "around 15/30/60) against expectations computed from the rendering, and the Coq model is run on the same token streams.",
+   note="Partial (header recognition and Python are exploration-level).  Trusted: Coq kernel; scope model (tie H); generator "
+        "harness/progen.py and its piece-ownership expectation; C14/C15/C03/C05 bound the matcher on arbitrary streams.",
+   technique="Rocq proof of the pipeline given the headers (Dyck matching, pairing invariant, fold, counting) + typed program generator with computed expectations",
+   ref="DESIGN.md sections 5 and 9, C01"),
+
  "C12": dict(
    text="Coq theorems (Props/C12.v; proofs Fs/CheckProofs.v) over the models of check_command (cwd = codebase root) and "
         "scan_path sharing the walk, the exclusion test and the analysis oracle: a file scan analyses, reached as a relative "
